@@ -2,18 +2,25 @@
 (* S3, LoadLicenses -- specified as the statement of C12 intends it:
      walk the tree; ignore names that do not end in "txt"; ignore files shallower than
      category/name/variant; a file at exactly that depth is AddContent(category, name, variant, bytes);
-     the spelling of the directory (plain, trailing separator, ./ prefix, absolute) is irrelevant.
+     the spelling of the directory (plain, trailing separator, ./ prefix, absolute, "." from inside, dir/., a detour
+     through ..) is irrelevant; directory names are just names (a leading dot means nothing);
+     registering a key again replaces the document: loading over documents added earlier, and loading a directory a
+     second time after its files were edited, leave exactly what AddContent of the current files leaves.
    TLC enumerates small trees x spellings; every case is materialised on disk by the Go driver and
    the real LoadLicenses must yield exactly the expected corpus keys (and never panic).  A tree that
    also holds deeper *.txt files is outside the equivalence claim: only "no panic" is required. *)
 EXTENDS Integers, Sequences, FiniteSets, TLC, Json
 
 CONSTANTS MaxFiles
-Level1 == {"License", "Header"}
-Level2 == {"x", "y"}
+Level1 == {"License", ".Header"}
+Level2 == {"x", ".y"}
 Bases  == {"f", "g"}
 Suffix == {".txt", "txt", ".md", ".TXT"}         \* "txt": a bare name ending in txt (e.g. "ftxt")
-Spell  == {"plain", "trailing", "dot", "dottrailing", "absolute"}
+Spell  == {"plain", "trailing", "dot", "dottrailing", "absolute", "cwd", "cwdslash", "inner", "updown"}
+(* history before the load: nothing; every key of the tree (and one foreign key) registered with other content;
+   the tree loaded once with other file contents (then edited, then loaded again) *)
+Mode   == {"fresh", "pre", "reload"}
+Combos == (Spell \X {"fresh"}) \cup ({"plain", "absolute"} \X {"pre", "reload"})
 
 (* candidate files: depth 1..5 below the corpus directory *)
 Dirs(d) == CASE d = 1 -> {<<>>}
@@ -28,17 +35,17 @@ Depth(f)     == Len(f.dir) + 1
 Name(f)      == f.base \o f.suf                   \* TLC concatenates strings
 Key(f)       == <<f.dir[1], f.dir[2], Name(f)>>
 
-VARIABLES tree, spelling, phase
-vars == <<tree, spelling, phase>>
-Init == tree = {} /\ spelling \in Spell /\ phase = "grow"
+VARIABLES tree, spelling, mode, phase
+vars == <<tree, spelling, mode, phase>>
+Init == tree = {} /\ (\E cb \in Combos : spelling = cb[1] /\ mode = cb[2]) /\ phase = "grow"
 Grow == /\ phase = "grow" /\ Cardinality(tree) < MaxFiles
         /\ \E f \in Files \ tree : tree' = tree \cup {f}
-        /\ UNCHANGED <<spelling, phase>>
-Emit == /\ phase = "grow" /\ phase' = "done" /\ UNCHANGED <<tree, spelling>>
+        /\ UNCHANGED <<spelling, mode, phase>>
+Emit == /\ phase = "grow" /\ phase' = "done" /\ UNCHANGED <<tree, spelling, mode>>
         /\ LET kept   == {f \in tree : EndsInTxt(f) /\ Depth(f) >= 3}
                exact  == \A f \in kept : Depth(f) = 3
                keys   == {Key(f) : f \in {g \in kept : Depth(g) = 3}}
-           IN PrintT(ToJson([files |-> {[dir |-> f.dir, name |-> Name(f)] : f \in tree}, spelling |-> spelling,
+           IN PrintT(ToJson([files |-> {[dir |-> f.dir, name |-> Name(f)] : f \in tree}, spelling |-> spelling, mode |-> mode,
                              equiv |-> exact, keys |-> keys]))
 Next == Grow \/ Emit
 Spec == Init /\ [][Next]_vars
